@@ -7,6 +7,7 @@ import (
 	"io"
 	"strings"
 	"time"
+	"verif/checks/rep"
 	"verif/checks/streamx"
 
 	"github.com/jsightapi/jsight-schema-go-library/formats/json"
@@ -19,7 +20,7 @@ func init() {
 	ev.Register(&ev.Check{
 		ID:             "C06",
 		Level:          "exploration",
-		Rule:           "inputs: (i) every valid JSON text among ALL strings <= 5 (thorough 6) symbols over the 30-class alphabet; (ii) ALL JSON values with <= 4 (5) nodes over 10 scalar forms rendered with every placement of <= 2 (3) gaps from {space, tab, LF, CRLF} over all inter-token positions; (iii) all 2^8 object/array nestings of depth 8, flat containers of width 1..8, numbers ending at end of input, every single-character escape and every \\uXXXX escape with each hex digit from {0,9,a,F} in strings and keys. Oracle on the public NextLexeme stream (of a fresh document, and of a document on which Len or Check ran before): properly nested, terminated by io.EOF, spans inside the input, literal/key spans == reference token spans, container spans bracket to bracket, value rebuilt from events alone == reference parse; cross-scanner: schema scanner and (arrays of scalars) enum scanner via verif hooks yield the same (type, begin, end) sequence modulo new-line events. (iv) pairs of small documents read in turns through NextLexeme: in ALL merges of the two call sequences each document delivers the events it delivers alone. States/transitions = distinct (event-type stack) configurations of the replayed event automaton and steps between them. Non-trivial = distinct valid text with >= 2 events.",
+		Rule:           "inputs: (i) every valid JSON text among ALL strings <= 5 (thorough 6) symbols over the 30-class alphabet; (ii) ALL JSON values with <= 4 (5) nodes over 10 scalar forms rendered with every placement of <= 2 (3) gaps from {space, tab, LF, CRLF} over all inter-token positions; (iii) all 2^8 object/array nestings of depth 8, flat containers of width 1..8, containers of n copies of each of 12 units (empty and one-item containers, scalars) for n in 1..10 and around every power of two up to 256, 300, 1000, numbers ending at end of input, every single-character escape and every \\uXXXX escape with each hex digit from {0,9,a,F} in strings and keys. Oracle on the public NextLexeme stream (of a fresh document, and of a document on which Len or Check ran before): properly nested, terminated by io.EOF, spans inside the input, literal/key spans == reference token spans, container spans bracket to bracket, value rebuilt from events alone == reference parse; cross-scanner: schema scanner and (arrays of scalars) enum scanner via verif hooks yield the same (type, begin, end) sequence modulo new-line events. (iv) pairs of small documents read in turns through NextLexeme: in ALL merges of the two call sequences each document delivers the events it delivers alone. States/transitions = distinct (event-type stack) configurations of the replayed event automaton and steps between them. Non-trivial = distinct valid text with >= 2 events.",
 		Run:            run,
 		Replay:         replay,
 		QuickBudget:    80 * time.Second,
@@ -290,6 +291,8 @@ func firstLine(s string) string {
 	return s
 }
 
+var longReductions int // per worker process
+
 func evalAndReport(c *ev.Ctx, text string) {
 	if !jsonpda.Valid([]byte(text)) {
 		return
@@ -303,9 +306,21 @@ func evalAndReport(c *ev.Ctx, text string) {
 		c.Sample(fmt.Sprintf("len%d", len(text)/8), text)
 	}
 	c.Inc("traces_validated_against_impl")
+	if dir != "" && len(text) > 150 {
+		if longReductions++; longReductions > 8 {
+			// a defect that shows on long texts shows on hundreds of them: eight are reduced to their
+			// cores, the others are reported as they are
+			_, desc := evalText(nil, text)
+			c.Violate(fmt.Sprintf("%s;unreduced;%d bytes;%.60q", dir, len(text), text), desc, caseT{text, dir})
+			return
+		}
+	}
 	if dir != "" {
 		red := ev.Reduce(text, func(t string) []string {
-			var out []string
+			out := jsonpda.StructuralCands(t)
+			if len(t) > 150 {
+				return out // byte-level steps only once the structure is small
+			}
 			for i := 0; i < len(t); i++ {
 				cand := t[:i] + t[i+1:]
 				if jsonpda.Valid([]byte(cand)) {
@@ -379,6 +394,7 @@ func run(c *ev.Ctx) {
 	if c.Shard == 0 {
 		families(c)
 	}
+	repetitions(c)
 	// two documents read in turns: every merge of the two call sequences
 	streamx.Run(c)
 }
@@ -550,6 +566,24 @@ func families(c *ev.Ctx) {
 		evalAndReport(c, num+"\n")
 		evalAndReport(c, "["+num+"]")
 		evalAndReport(c, `{"n":`+num+`}`)
+	}
+}
+
+// repetitions: n copies of one unit, n around every power of two up to 256 (sharded over the workers).
+func repetitions(c *ev.Ctx) {
+	for _, u := range rep.Units {
+		for _, n := range rep.Counts {
+			if !c.MineKey(fmt.Sprint("rep;", u, ";", n)) {
+				continue
+			}
+			if c.Expired() {
+				return
+			}
+			for _, t := range rep.Texts(u, n) {
+				evalAndReport(c, t)
+				c.Inc("repetition_family_texts")
+			}
+		}
 	}
 }
 
